@@ -28,7 +28,7 @@ static void app(Bytes &b, const char *s) { b.insert(b.end(), s, s + strlen(s)); 
 
 const char *msg_name(int m) {
     switch (m) {
-    case M_HELLO_REQUEST: return "HelloRequest"; case M_CLIENT_HELLO: return "ClientHello"; case M_SERVER_HELLO: return "ServerHello";
+    case M_HELLO_REQUEST: return "HelloRequest"; case M_HELLO_VERIFY_REQUEST: return "HelloVerifyRequest"; case M_CLIENT_HELLO: return "ClientHello"; case M_SERVER_HELLO: return "ServerHello";
     case M_NEW_SESSION_TICKET: return "NewSessionTicket"; case M_CERTIFICATE: return "Certificate"; case M_SERVER_KEY_EXCHANGE: return "ServerKeyExchange";
     case M_CERTIFICATE_REQUEST: return "CertificateRequest"; case M_SERVER_HELLO_DONE: return "ServerHelloDone"; case M_CERTIFICATE_VERIFY: return "CertificateVerify";
     case M_CLIENT_KEY_EXCHANGE: return "ClientKeyExchange"; case M_FINISHED: return "Finished"; case M_CCS: return "CCS"; case M_APPDATA: return "AppData";
@@ -152,6 +152,9 @@ struct Puppet12::Impl {
     Bytes transcript, premaster, master; bool have_master = false;
     Bytes c_mac, s_mac, c_key, s_key, c_iv, s_iv; bool have_keys = false;
     bool w_enc = false, r_enc = false; uint64_t w_seq = 0, r_seq = 0;
+    // DTLS: write epoch / record sequence number within the epoch, handshake message_seq counters, cookie
+    unsigned w_epoch = 0; uint64_t w_rseq = 0; unsigned w_msg_seq = 0, r_msg_seq = 0; Bytes cookie; bool hvr_seen = false, ch_sent = false;
+    Bytes frag_buf; int frag_type = -1; size_t frag_total = 0;   // DTLS reassembly of the message with message_seq == r_msg_seq
     EVP_PKEY *own_key = nullptr;        // cached, not owned
     EVP_PKEY *peer_key = nullptr;       // owned (from the peer's Certificate)
     EVP_PKEY *ecdh = nullptr;           // owned
@@ -178,6 +181,9 @@ struct Puppet12::Impl {
     Bytes rnd(size_t n) { Bytes b(n); for (size_t i = 0; i < n;) { uint64_t v = splitmix(rng); for (int k = 0; k < 8 && i < n; k++, i++) b[i] = (uint8_t) (v >> (8 * k)); } return b; }
     void fail(const std::string &e) { if (err.empty()) err = e; }
     bool is_client() const { return cfg.role == CLIENT; }
+    bool dtls() const { return cfg.dtls; }
+    uint16_t wire_ver() const { return !cfg.dtls ? cfg.version : cfg.version >= 0x0303 ? 0xfefd : 0xfeff; }
+    size_t hs_hdr() const { return cfg.dtls ? 12 : 4; }
 
     // ---- key schedule
     void compute_master() {
@@ -201,9 +207,21 @@ struct Puppet12::Impl {
 
     // ---- record protection
     const EVP_MD *mac_md() const { return si->mac == 20 ? EVP_sha1() : EVP_sha256(); }
-    Bytes header(uint8_t type, uint16_t ver, size_t len) { Bytes r; r.push_back(type); put16(r, ver); put16(r, (unsigned) len); return r; }
-    Bytes protect(uint8_t type, const Bytes &pt, uint16_t ver) {
+    // TLS: 5-byte header.  DTLS: 13 bytes, epoch + 48-bit sequence number taken from seq64
+    Bytes header(uint8_t type, uint16_t ver, size_t len, uint64_t seq64 = 0) {
+        Bytes r; r.push_back(type); put16(r, ver);
+        if (cfg.dtls) { Bytes x; put64(x, seq64); app(r, x); }
+        put16(r, (unsigned) len); return r;
+    }
+    // sequence value that enters MAC / AAD / explicit nonce: TLS = implicit counter, DTLS = epoch || 48-bit record sequence number (epoch_override: header lies)
+    uint64_t next_seq64(int epoch_override) {
+        if (!cfg.dtls) return w_seq;
+        unsigned ep = epoch_override >= 0 ? (unsigned) epoch_override : w_epoch;
+        return ((uint64_t) ep << 48) | (w_rseq++ & 0xffffffffffffULL);
+    }
+    Bytes protect(uint8_t type, const Bytes &pt, uint16_t ver, int epoch_override = -1) {
         ensure_keys();
+        uint64_t w_seq = next_seq64(epoch_override);   // shadows the TLS counter on purpose
         const Bytes &key = is_client() ? c_key : s_key, &iv = is_client() ? c_iv : s_iv, &mk = is_client() ? c_mac : s_mac;
         Bytes ad; put64(ad, w_seq); ad.push_back(type); put16(ad, ver); put16(ad, (unsigned) pt.size());
         Bytes body;
@@ -224,11 +242,12 @@ struct Puppet12::Impl {
             EVP_EncryptUpdate(c, ct.data(), &n, data.data(), (int) data.size()); EVP_EncryptFinal_ex(c, ct.data() + n, &m); EVP_CIPHER_CTX_free(c);
             ct.resize(data.size()); body = civ; app(body, ct);
         }
-        w_seq++;
-        Bytes r = header(type, ver, body.size()); app(r, body); return r;
+        if (!cfg.dtls) this->w_seq++;
+        Bytes r = header(type, ver, body.size(), w_seq); app(r, body); return r;
     }
-    bool unprotect(uint8_t type, uint16_t ver, const Bytes &in, Bytes &pt) {
+    bool unprotect(uint8_t type, uint16_t ver, const Bytes &in, Bytes &pt, uint64_t seq64 = 0) {
         ensure_keys();
+        uint64_t r_seq = cfg.dtls ? seq64 : this->r_seq;
         const Bytes &key = is_client() ? s_key : c_key, &iv = is_client() ? s_iv : c_iv, &mk = is_client() ? s_mac : c_mac;
         if (si->gcm) {
             if (in.size() < 24) return false;
@@ -255,13 +274,14 @@ struct Puppet12::Impl {
             if (memcmp(mac.data(), data.data() + n, ml) != 0) return false;
             pt.assign(data.begin(), data.begin() + n);
         }
-        r_seq++; return true;
+        if (!cfg.dtls) this->r_seq++;
+        return true;
     }
-    Bytes record(uint8_t type, const Bytes &pt, int prot, uint16_t ver) {
-        if (!ver) ver = cfg.version;
+    Bytes record(uint8_t type, const Bytes &pt, int prot, uint16_t ver, int epoch_override = -1) {
+        if (!ver) ver = wire_ver();
         bool enc = prot == P_ENCRYPTED || (prot == P_STATE && w_enc);
-        if (enc) return protect(type, pt, ver);
-        Bytes r = header(type, ver, pt.size()); app(r, pt); return r;
+        if (enc) return protect(type, pt, ver, epoch_override);
+        Bytes r = header(type, ver, pt.size(), next_seq64(epoch_override)); app(r, pt); return r;
     }
 
     // ---- ECDH
@@ -288,10 +308,12 @@ struct Puppet12::Impl {
 
     // ---- message builders (bodies)
     Bytes build_client_hello() {
-        client_random = rnd(32);
-        Bytes b; put16(b, cfg.version); app(b, client_random);
+        if (!(cfg.dtls && ch_sent)) client_random = rnd(32);   // DTLS: the ClientHello that answers a HelloVerifyRequest repeats the first one (RFC 6347 4.2.1)
+        ch_sent = true;
+        Bytes b; put16(b, wire_ver()); app(b, client_random);
         session_id = cfg.resume.valid() ? cfg.resume.id : Bytes();
         b.push_back((uint8_t) session_id.size()); app(b, session_id);
+        if (cfg.dtls) { b.push_back((uint8_t) cookie.size()); app(b, cookie); }
         std::vector<uint16_t> su = { cfg.suite }; for (auto s : cfg.extra_suites) su.push_back(s); su.push_back(0x00FF);
         put16(b, (unsigned) su.size() * 2); for (auto s : su) put16(b, s);
         b.push_back(1); b.push_back(0);
@@ -309,7 +331,7 @@ struct Puppet12::Impl {
         if (cfg.resume.valid() && ch_sid == cfg.resume.id) { resumed_ = true; session_id = cfg.resume.id; master = cfg.resume.master; have_master = true; have_keys = false; override_master(); }
         else session_id = cfg.server_empty_session_id ? Bytes() : rnd(32);
         ems = cfg.ems && client_offers_ems;
-        Bytes b; put16(b, cfg.version); app(b, server_random); b.push_back((uint8_t) session_id.size()); app(b, session_id);
+        Bytes b; put16(b, wire_ver()); app(b, server_random); b.push_back((uint8_t) session_id.size()); app(b, session_id);
         put16(b, cfg.server_suite_override >= 0 ? (unsigned) cfg.server_suite_override : cfg.suite); b.push_back(0);
         Bytes e;
         if (client_reneg) { put16(e, 0xff01); put16(e, 1); e.push_back(0); }
@@ -342,7 +364,7 @@ struct Puppet12::Impl {
     Bytes build_cke() {
         Bytes b;
         if (si->ecdhe) { ecdh_gen(); ecdh_derive(); b.push_back((uint8_t) own_point.size()); app(b, own_point); return b; }
-        premaster.clear(); put16(premaster, cfg.version); app(premaster, rnd(46));
+        premaster.clear(); put16(premaster, wire_ver()); app(premaster, rnd(46));
         Bytes ct;
         if (peer_key) {
             EVP_PKEY_CTX *c = EVP_PKEY_CTX_new(peer_key, nullptr); size_t n = 0;
@@ -359,9 +381,21 @@ struct Puppet12::Impl {
         Bytes sig = rsa_sign(cfg.version, k, transcript);
         Bytes b; if (cfg.version >= 0x0303) { b.push_back(4); b.push_back(1); } put16(b, (unsigned) sig.size()); app(b, sig); return b;
     }
+    Bytes build_hvr() { cookie = rnd(20); Bytes b; put16(b, wire_ver()); b.push_back((uint8_t) cookie.size()); app(b, cookie); return b; }
     Bytes build_nst(const Bytes &ticket) { Bytes t = ticket.empty() ? rnd(48) : ticket; Bytes b; put16(b, 0); put16(b, 7200); put16(b, (unsigned) t.size()); app(b, t); return b; }
 
     // ---- emit
+    // DTLS: one handshake message (unfragmented form in `full`) -> records, each with its own 12-byte header (fragment_offset / fragment_length)
+    Bytes flush_dtls(const Step &s, const Bytes &full) {
+        Bytes out; size_t blen = full.size() - 12, chunk = s.frag ? s.frag : 16384, o = 0;
+        if (s.frag_count > 0 && blen) chunk = (blen + (size_t) s.frag_count - 1) / (size_t) s.frag_count;
+        do {
+            size_t k = std::min(chunk, blen - o);
+            Bytes part(full.begin(), full.begin() + 6); put24(part, (unsigned) o); put24(part, (unsigned) k); app(part, full.data() + 12 + o, k);
+            app(out, record(22, part, s.prot, s.rec_version, s.epoch_override)); o += k;
+        } while (o < blen);
+        return out;
+    }
     Bytes flush(const Step &s) {
         Bytes out; size_t chunk = s.frag ? s.frag : 16384, o = 0;
         while (o < co_buf.size()) { size_t k = std::min(chunk, co_buf.size() - o); Bytes part(co_buf.begin() + o, co_buf.begin() + o + k); app(out, record(22, part, s.prot, s.rec_version)); o += k; }
@@ -374,11 +408,13 @@ struct Puppet12::Impl {
         bool hs = m < 0x100 || m == M_CERTIFICATE_EMPTY || m == M_RAW_HANDSHAKE;
         if (hs) {
             Bytes full; int type = m == M_CERTIFICATE_EMPTY ? M_CERTIFICATE : m == M_RAW_HANDSHAKE ? s.hs_type : m;
+            if (cfg.dtls && s.resend && last_sent.count(m)) return flush_dtls(s, last_sent[m]);   // DTLS retransmission (same message_seq): receivers ignore it, it is not hashed again
             if (s.resend && last_sent.count(m)) full = last_sent[m];
             else {
                 Bytes body;
                 switch (m) {
                 case M_HELLO_REQUEST: case M_SERVER_HELLO_DONE: break;
+                case M_HELLO_VERIFY_REQUEST: body = build_hvr(); break;
                 case M_CLIENT_HELLO: body = build_client_hello(); break;
                 case M_SERVER_HELLO: body = build_server_hello(); break;
                 case M_CERTIFICATE: body = build_certificate(false); break;
@@ -391,14 +427,23 @@ struct Puppet12::Impl {
                 case M_NEW_SESSION_TICKET: body = build_nst(s.payload); break;
                 default: body = s.payload; break;
                 }
-                full.push_back((uint8_t) type); put24(full, (unsigned) body.size()); app(full, body);
+                if (s.body_len >= 0) body.resize((size_t) s.body_len, 0);   // wrong-length body: honest prefix / honest + trailing zero bytes
+                full.push_back((uint8_t) type); put24(full, (unsigned) body.size());
+                if (cfg.dtls) {   // message_seq, fragment_offset 0, fragment_length = length: the form that enters the transcript
+                    int ms = (int) w_msg_seq + s.seq_skip; if (ms < 0) ms = 0;
+                    put16(full, (unsigned) ms); put24(full, 0); put24(full, (unsigned) body.size()); w_msg_seq = (unsigned) ms + 1;
+                }
+                app(full, body);
                 if (s.type_override >= 0) full[0] = (uint8_t) s.type_override;
-                flip(full, 4, s.flip_bit);
+                flip(full, hs_hdr(), s.flip_bit);
                 if (s.mutate) s.mutate(full);
             }
             last_sent[m] = full;
-            if (!(full.size() >= 1 && full[0] == M_HELLO_REQUEST)) app(transcript, full);   // RFC 5246 7.4.1.1: HelloRequest is not part of the handshake hashes
+            // not part of the handshake hashes: HelloRequest (RFC 5246 7.4.1.1); DTLS: HelloVerifyRequest and every ClientHello before the last one (RFC 6347 4.2.1)
+            if (cfg.dtls && full.size() >= 1 && full[0] == M_CLIENT_HELLO) transcript.clear();
+            if (!(full.size() >= 1 && (full[0] == M_HELLO_REQUEST || (cfg.dtls && full[0] == M_HELLO_VERIFY_REQUEST)))) app(transcript, full);
             if (m == M_CLIENT_KEY_EXCHANGE) compute_master();   // session hash (RFC 7627) = transcript up to and including ClientKeyExchange
+            if (cfg.dtls) return flush_dtls(s, full);
             app(co_buf, full);
             if (s.coalesce) return out;
             return flush(s);
@@ -407,12 +452,12 @@ struct Puppet12::Impl {
         switch (m) {
         case M_CCS: {
             Bytes pt = { 1 }; if (!s.payload.empty()) pt = s.payload; flip(pt, 0, s.flip_bit);
-            app(out, record(20, pt, s.prot, s.rec_version));
-            derive_keys(); w_enc = true; w_seq = 0; break;   // pending write state becomes current: (re)derive from the present master, sequence number 0
+            app(out, record(20, pt, s.prot, s.rec_version, s.epoch_override));
+            derive_keys(); w_enc = true; w_seq = 0; if (cfg.dtls) { w_epoch++; w_rseq = 0; } break;   // pending write state becomes current: (re)derive from the present master, sequence number 0
         }
-        case M_APPDATA: { Bytes pt = s.payload; flip(pt, 0, s.flip_bit); app(out, record(23, pt, s.prot, s.rec_version)); break; }
-        case M_ALERT: { Bytes pt = s.payload; if (pt.empty()) pt = { 1, 0 }; app(out, record(21, pt, s.prot, s.rec_version)); break; }
-        case M_TYPED_RECORD: { Bytes pt = s.payload; flip(pt, 0, s.flip_bit); app(out, record((uint8_t) s.hs_type, pt, s.prot, s.rec_version)); break; }
+        case M_APPDATA: { Bytes pt = s.payload; flip(pt, 0, s.flip_bit); app(out, record(23, pt, s.prot, s.rec_version, s.epoch_override)); break; }
+        case M_ALERT: { Bytes pt = s.payload; if (pt.empty()) pt = { 1, 0 }; app(out, record(21, pt, s.prot, s.rec_version, s.epoch_override)); break; }
+        case M_TYPED_RECORD: { Bytes pt = s.payload; flip(pt, 0, s.flip_bit); app(out, record((uint8_t) s.hs_type, pt, s.prot, s.rec_version, s.epoch_override)); break; }
         case M_RAW_RECORD: app(out, s.payload); break;
         default: break;
         }
@@ -446,6 +491,7 @@ struct Puppet12::Impl {
                 break;
             }
             case M_CERTIFICATE_REQUEST: cr_seen = true; break;
+            case M_HELLO_VERIFY_REQUEST: if (n >= 3 && (size_t) 3 + p[2] <= n) { cookie.assign(p + 3, p + 3 + p[2]); hvr_seen = true; } else fail("bad HelloVerifyRequest"); break;
             case M_FINISHED: on_finished(body, false); break;
             default: break;
             }
@@ -455,6 +501,7 @@ struct Puppet12::Impl {
                 if (n < 35) { fail("short ClientHello"); break; }
                 client_random.assign(p + 2, p + 34); size_t sl = p[34], o = 35 + sl; if (o + 2 > n) { fail("bad ClientHello"); break; }
                 ch_sid.assign(p + 35, p + 35 + sl);
+                if (cfg.dtls) { if (o + 1 > n || o + 1 + p[o] + 2 > n) { fail("bad ClientHello cookie"); break; } o += 1 + p[o]; }
                 size_t cl = (size_t) (p[o] << 8 | p[o + 1]); o += 2; offered.clear(); client_reneg = false;
                 for (size_t i = 0; i + 1 < cl && o + i + 1 < n; i += 2) { uint16_t s = (uint16_t) (p[o + i] << 8 | p[o + i + 1]); offered.push_back(s); if (s == 0x00FF) client_reneg = true; }
                 o += cl; if (o < n) o += 1 + p[o];
@@ -487,7 +534,8 @@ struct Puppet12::Impl {
             default: break;
             }
         }
-        if (type != M_HELLO_REQUEST) app(transcript, full);
+        if (cfg.dtls && type == M_CLIENT_HELLO) transcript.clear();   // only the last ClientHello is hashed
+        if (type != M_HELLO_REQUEST && !(cfg.dtls && type == M_HELLO_VERIFY_REQUEST)) app(transcript, full);
         if (!is_client() && type == M_CLIENT_KEY_EXCHANGE) compute_master();
     }
     void parse_peer_cert(const uint8_t *p, size_t n) {
@@ -518,8 +566,48 @@ struct Puppet12::Impl {
         default: fail("unknown record type"); break;
         }
     }
+    // DTLS: records of epoch 0 are plaintext, later epochs are protected with the sequence value of their header; handshake fragments of the expected
+    // message_seq are reassembled in order, lower numbers (retransmissions) are ignored
+    void on_record_dtls(uint8_t type, uint16_t ver, uint64_t seq64, const Bytes &raw) {
+        Bytes pt; bool enc = (seq64 >> 48) != 0;
+        if (enc) { if (!unprotect(type, ver, raw, pt, seq64)) { fail("undecryptable record of type " + std::to_string(type)); seen.push_back({ 0x1000 + type, true, raw.size() }); return; } }
+        else pt = raw;
+        switch (type) {
+        case 20: ccs_seen = true; seen.push_back({ M_CCS, enc, pt.size() }); derive_keys(); r_enc = true; break;
+        case 21: seen.push_back({ M_ALERT, enc, pt.size() }); if (pt.size() >= 2) { al_level = pt[0]; al_desc = pt[1]; if (pt[0] == 2) fatal = true; } break;
+        case 23: seen.push_back({ M_APPDATA, enc, pt.size() }); app(app_in, pt); break;
+        case 22: {
+            size_t o = 0;
+            while (o + 12 <= pt.size()) {
+                const uint8_t *h = pt.data() + o; size_t len = (size_t) (h[1] << 16 | h[2] << 8 | h[3]), fo = (size_t) (h[6] << 16 | h[7] << 8 | h[8]), fl = (size_t) (h[9] << 16 | h[10] << 8 | h[11]);
+                unsigned ms = (unsigned) (h[4] << 8 | h[5]);
+                if (o + 12 + fl > pt.size() || fo + fl > len) { fail("malformed DTLS handshake fragment"); return; }
+                if (ms == r_msg_seq) {
+                    if (fo == 0) { frag_buf.clear(); frag_type = h[0]; frag_total = len; }
+                    if (frag_type == h[0] && fo == frag_buf.size()) app(frag_buf, h + 12, fl);
+                    else if (fo > frag_buf.size()) fail("DTLS handshake fragments out of order");
+                    if (frag_type == h[0] && frag_buf.size() == frag_total && fo + fl == len) {
+                        Bytes full; full.push_back(h[0]); put24(full, (unsigned) len); put16(full, ms); put24(full, 0); put24(full, (unsigned) len); app(full, frag_buf);
+                        Bytes body = frag_buf; frag_buf.clear(); frag_type = -1; r_msg_seq++;
+                        on_handshake(full[0], body, full, enc);
+                    }
+                } else if (ms > r_msg_seq) fail("DTLS handshake message from the future");
+                o += 12 + fl;
+            }
+            break;
+        }
+        default: fail("unknown record type"); break;
+        }
+    }
     void feed(const uint8_t *d, size_t n) {
         app(rbuf, d, n);
+        while (cfg.dtls && rbuf.size() >= 13) {
+            size_t l = (size_t) (rbuf[11] << 8 | rbuf[12]); if (rbuf.size() < 13 + l) break;
+            uint8_t type = rbuf[0]; uint16_t ver = (uint16_t) (rbuf[1] << 8 | rbuf[2]); uint64_t sq = 0; for (int i = 3; i < 11; i++) sq = sq << 8 | rbuf[i];
+            Bytes raw(rbuf.begin() + 13, rbuf.begin() + 13 + l); rbuf.erase(rbuf.begin(), rbuf.begin() + 13 + l);
+            on_record_dtls(type, ver, sq, raw);
+        }
+        if (cfg.dtls) return;
         while (rbuf.size() >= 5) {
             size_t l = (size_t) (rbuf[3] << 8 | rbuf[4]); if (rbuf.size() < 5 + l) break;
             uint8_t type = rbuf[0]; uint16_t ver = (uint16_t) (rbuf[1] << 8 | rbuf[2]);
@@ -567,9 +655,11 @@ std::vector<Step> legal_script(const Config &cfg, bool resumed) {
     bool ecdhe = suite_is_ecdhe(cfg.suite);
     if (cfg.role == CLIENT) {
         add(M_CLIENT_HELLO);
+        if (cfg.dtls) add(M_CLIENT_HELLO);   // the second one answers the server's HelloVerifyRequest (a MatrixSSL server always sends one)
         if (!resumed) { if (cfg.client_auth) add(M_CERTIFICATE); add(M_CLIENT_KEY_EXCHANGE); if (cfg.client_auth) add(M_CERTIFICATE_VERIFY); }
         add(M_CCS); add(M_FINISHED);
     } else {
+        if (cfg.dtls && cfg.dtls_cookie) add(M_HELLO_VERIFY_REQUEST);
         add(M_SERVER_HELLO);
         if (!resumed) { add(M_CERTIFICATE); if (ecdhe) add(M_SERVER_KEY_EXCHANGE); if (cfg.client_auth) add(M_CERTIFICATE_REQUEST); add(M_SERVER_HELLO_DONE); if (cfg.ack_ticket_ext) add(M_NEW_SESSION_TICKET); }
         add(M_CCS); add(M_FINISHED);
